@@ -251,6 +251,7 @@ package io
 //@   ensures len(this.iBuffer.Buf) >= old(len(this.iBuffer.Buf))
 //@   ensures this.ibs.rbitsI >= old(this.ibs.rbitsI) && this.ibs.iclosed == old(this.ibs.iclosed)
 //@   modifies res.err, res.data, res.decoded, res.blockID, res.skipped, res.checksum, res.completionTime.all, *this.processedBlockID, this.blockTransformType, this.blockEntropyType, this.iBuffer.Buf, this.oBuffer.Buf, this.ctx[*], this.listeners[*], this.ibs.rbitsI, this.ibs.ieof, this.ibs.aligned, this.ibs.ipos, "A!Int"
+//@   atalloc alloclen <= 2*len(data) + 67108864 || alloclen <= 2*this.blockLength + 4096                                       #allocation-bounded-by-what-is-held-or-declared @C03
 //@   ghostlocal reads int = 0
 //@   ghostlocal lastv int = 1
 //@   ghostlocal sawCancel bool = false
@@ -264,7 +265,7 @@ package io
 //@   aftercall XXHash64).Hash set hashed = true
 //@   atreturn res.err == nil && decoded > 0 && (this.hasher32 != nil || this.hasher64 != nil) ==> hashed             #delivered-block-was-hashed @C02
 //@   loop 1 invariant res.err == nil && !res.skipped && res.decoded == 0 && !skipped && decoded == 0 && *this.processedBlockID == old(*this.processedBlockID) && this.ibs.rbitsI == old(this.ibs.rbitsI) && this.ibs.iclosed == old(this.ibs.iclosed) && this.iBuffer.Buf == old(this.iBuffer.Buf) && data == old(this.iBuffer.Buf) && !hashed && reads == 0 && !sawCancel
-//@   loop 2 invariant res.err == nil && !res.skipped && res.decoded == 0 && !skipped && decoded == 0 && *this.processedBlockID == old(*this.processedBlockID) && old(*this.processedBlockID) == this.currentBlockID - 1 && this.ibs.rbitsI >= old(this.ibs.rbitsI) && this.ibs.iclosed == old(this.ibs.iclosed) && len(this.iBuffer.Buf) >= old(len(this.iBuffer.Buf)) && data == this.iBuffer.Buf && !hashed && reads == 2 && lastv != 0
+//@   loop 2 invariant res.err == nil && !res.skipped && res.decoded == 0 && !skipped && decoded == 0 && *this.processedBlockID == old(*this.processedBlockID) && old(*this.processedBlockID) == this.currentBlockID - 1 && this.ibs.rbitsI >= old(this.ibs.rbitsI) && this.ibs.iclosed == old(this.ibs.iclosed) && len(this.iBuffer.Buf) >= old(len(this.iBuffer.Buf)) && data == this.iBuffer.Buf && !hashed && reads == 2 && lastv != 0 && 0 <= n && n <= len(data) && 0 <= read && n + (read + 7) / 8 <= maxL
 
 //@ func (*Reader) processBlock
 //@   mode int
